@@ -70,6 +70,8 @@ pub fn answer_utc(u: i64) -> Ans {
 
 /// Prefix of the message of an answer that reports two public routes disagreeing with each other.
 pub const GLUE: &str = "routes-disagree: ";
+/// Prefix of `run_child`'s error when the child process could not be started at all.
+pub const SPAWN_FAILED: &str = "spawn-failed: ";
 
 /// The other public ways of getting the same instant shown in the local zone (or the local value shown
 /// in another zone): each must carry the zone's offset for that instant and keep the instant.
@@ -240,7 +242,17 @@ pub fn run_child(work_dir: &std::path::Path, tag: &str, tz: Option<&str>, querie
             cmd.env_remove("TZ");
         }
     }
-    let out = cmd.output().map_err(|e| e.to_string())?;
+    // spawning can fail transiently on a machine that is out of processes or memory: retry, and
+    // tag the failure so that callers report it as a harness problem, never as chrono's behaviour
+    let mut out = cmd.output();
+    for pause in [300u64, 1500] {
+        if out.is_ok() {
+            break;
+        }
+        std::thread::sleep(std::time::Duration::from_millis(pause));
+        out = cmd.output();
+    }
+    let out = out.map_err(|e| format!("{}{}", SPAWN_FAILED, e))?;
     let _ = std::fs::remove_file(&qpath);
     let text = String::from_utf8_lossy(&out.stdout);
     let answers: Vec<Ans> = text.lines().map(Ans::parse).collect();
